@@ -29,6 +29,7 @@ type c18Case struct {
 	NilCB    bool        `json:"nil_cb"`   // LMTPData(nil)
 	Reset    bool        `json:"reset"`    // Client.Reset between transactions
 	Mix      int         `json:"mix"`      // 1, 2: the API used rotates forwards / backwards from transaction to transaction (callback / nil callback / Data())
+	Retry    int         `json:"retry"`    // index+1 of a transaction whose DATA command is refused once (451) by the scripted peer and then issued again: the recipients accepted before stay accepted
 	Abandon  int         `json:"abandon"`  // index+1 of a transaction that is abandoned after its RCPTs (DATA refused by the peer with 451); scripted peer
 }
 
@@ -123,6 +124,21 @@ func c18Run(ctx *core.Ctx) {
 				}
 			}
 		}
+		// DATA refused once with a transient code, then issued again inside the same transaction
+		for _, m := range modes {
+			for _, t := range [][][]c18Rcpt{
+				{{{Verdict: "ok"}}},
+				{{{Verdict: "ok"}, {Verdict: "fail"}}},
+				{{{Verdict: "fail"}, {Refuse: true}, {Verdict: "ok"}}, {{Verdict: "ok"}}},
+				{{{Verdict: "ok"}}, {{Verdict: "fail"}, {Verdict: "ok"}}},
+			} {
+				for retry := 1; retry <= len(t); retry++ {
+					c := m
+					c.Txns, c.Retry = t, retry
+					emit(c)
+				}
+			}
+		}
 		// the same address accepted twice in one transaction: two RCPTs, two statuses
 		emitAll([][]c18Rcpt{{{Verdict: "ok"}, {Verdict: "ok", Dup: true}}})
 		emitAll([][]c18Rcpt{{{Verdict: "fail"}, {Verdict: "fail", Dup: true}, {Verdict: "ok"}}, {{Verdict: "ok"}}})
@@ -142,7 +158,7 @@ func c18Exec(ctx *core.Ctx, c c18Case) {
 			}
 		}
 	}
-	ctx.Eval(fmt.Sprintf("%v|%v|%v|%v|%d", c.Txns, c.Callback, c.NilCB, c.Reset, c.Abandon)+fmt.Sprint("|", c.Mix), nontrivial)
+	ctx.Eval(fmt.Sprintf("%v|%v|%v|%v|%d", c.Txns, c.Callback, c.NilCB, c.Reset, c.Abandon)+fmt.Sprint("|", c.Mix, "|", c.Retry), nontrivial || c.Retry > 0)
 	rig := newRig(modeLMTPRcpt, nil)
 	// addresses encode transaction, index and verdict: t<t>r<i>-<ok|fail|rej>@x.test
 	rig.BE.H.Rcpt = func(sess int, to string, o *smtp.RcptOptions) error {
@@ -188,7 +204,7 @@ func c18Exec(ctx *core.Ctx, c c18Case) {
 		}
 		return nil
 	}
-	useFake := c.Abandon > 0
+	useFake := c.Abandon > 0 || c.Retry > 0
 	for _, t := range c.Txns {
 		for _, r := range t {
 			if r.Code == 251 {
@@ -240,6 +256,9 @@ func c18Exec(ctx *core.Ctx, c c18Case) {
 		sender := fmt.Sprintf("s%d@x.test", ti)
 		if c.Abandon == ti+1 {
 			sender = fmt.Sprintf("nodata%d@x.test", ti)
+		}
+		if c.Retry == ti+1 {
+			sender = fmt.Sprintf("dataonce%d@x.test", ti)
 		}
 		if err := cl.Mail(sender, nil); err != nil {
 			done()
@@ -329,6 +348,25 @@ func c18Exec(ctx *core.Ctx, c c18Case) {
 				return
 			}
 			continue
+		}
+		if c.Retry == ti+1 {
+			// the peer answers the first DATA of this transaction with 451; the transaction stays open
+			var derr error
+			switch {
+			case cb && nilcb:
+				_, derr = cl.LMTPData(nil)
+			case cb:
+				_, derr = cl.LMTPData(func(rcpt string, st *smtp.SMTPError) {
+					staleCalls = append(staleCalls, fmt.Sprintf("callback of the refused DATA of transaction %d called with (%s, %v)", ti, rcpt, st))
+				})
+			default:
+				_, derr = cl.Data()
+			}
+			if derr == nil {
+				done()
+				fail("C18:retry-setup", "the scripted peer was expected to refuse the first DATA")
+				return
+			}
 		}
 		switch {
 		case cb && nilcb:
@@ -435,7 +473,7 @@ func c18FakeLMTP(f *wire.Fake) {
 	f.Write("220 fake LMTP\r\n")
 	var accepted []string
 	inData := false
-	refuseData := false
+	refuseData, refuseOnce := false, false
 	for {
 		l, ok := f.ReadLine()
 		if !ok {
@@ -466,7 +504,8 @@ func c18FakeLMTP(f *wire.Fake) {
 			f.Write("250-fake\r\n250 PIPELINING\r\n")
 		case strings.HasPrefix(up, "MAIL"):
 			accepted = nil
-			refuseData = strings.Contains(l, "<nodata")
+			refuseData = strings.Contains(l, "<nodata") || strings.Contains(l, "<dataonce")
+			refuseOnce = strings.Contains(l, "<dataonce")
 			f.Write("250 2.0.0 ok\r\n")
 		case strings.HasPrefix(up, "RCPT"):
 			a := l[strings.Index(l, "<")+1 : strings.Index(l, ">")]
@@ -482,6 +521,9 @@ func c18FakeLMTP(f *wire.Fake) {
 			}
 		case up == "DATA" && refuseData:
 			f.Write("451 4.3.0 v#no-data-now\r\n")
+			if refuseOnce {
+				refuseData = false
+			}
 		case up == "DATA":
 			if len(accepted) == 0 {
 				f.Write("503 5.5.1 no recipients\r\n")
